@@ -6,7 +6,10 @@ import (
 	"fmt"
 	"os"
 	"os/exec"
+	"runtime"
 	"sort"
+	"sync"
+	"sync/atomic"
 
 	dblib "github.com/SAP/go-dblib"
 
@@ -51,10 +54,74 @@ func c20Collect(n int) c20Answers {
 	return a
 }
 
+// c20CollectConcurrent: the first backward calls of a process are made by G
+// goroutines at the same moment (released from a spin barrier), each asking
+// for the levels in its own order.
+func c20CollectConcurrent(G int) c20Answers {
+	type one struct {
+		g map[int]int
+		s map[int]string
+	}
+	res := make([]one, G)
+	var ready, goFlag int32
+	var wg sync.WaitGroup
+	for w := 0; w < G; w++ {
+		wg.Add(1)
+		go func(w int) {
+			defer wg.Done()
+			o := one{g: map[int]int{}, s: map[int]string{}}
+			atomic.AddInt32(&ready, 1)
+			for atomic.LoadInt32(&goFlag) == 0 {
+			}
+			for i := 0; i < 11; i++ {
+				l := -2 + (i+w*5)%11
+				lvl := dblib.ASEIsolationLevel(l)
+				if w%2 == 0 {
+					o.g[l] = int(lvl.ToGo())
+					o.s[l] = lvl.String()
+				} else {
+					o.s[l] = lvl.String()
+					o.g[l] = int(lvl.ToGo())
+				}
+			}
+			res[w] = o
+		}(w)
+	}
+	for atomic.LoadInt32(&ready) < int32(G) {
+		runtime.Gosched()
+	}
+	atomic.StoreInt32(&goFlag, 1)
+	wg.Wait()
+	a := c20Answers{ToGo: map[string][]int{}, String: map[string][]string{}}
+	for l := -2; l <= 8; l++ {
+		k := fmt.Sprint(l)
+		gs := map[int]bool{}
+		ss := map[string]bool{}
+		for _, o := range res {
+			gs[o.g[l]] = true
+			ss[o.s[l]] = true
+		}
+		for g := range gs {
+			a.ToGo[k] = append(a.ToGo[k], g)
+		}
+		for s := range ss {
+			a.String[k] = append(a.String[k], s)
+		}
+		sort.Ints(a.ToGo[k])
+		sort.Strings(a.String[k])
+	}
+	return a
+}
+
 func runC20(c *Ctx) {
 	r := c.R
 	if c.Leg == "child" {
 		b, _ := json.Marshal(c20Collect(4000))
+		os.Stdout.Write(b)
+		return
+	}
+	if c.Leg == "child-concurrent" {
+		b, _ := json.Marshal(c20CollectConcurrent(12))
 		os.Stdout.Write(b)
 		return
 	}
@@ -124,6 +191,24 @@ func runC20(c *Ctx) {
 		r.Eval(11 * 4000 * 2)
 	}
 	r.Count("fresh_processes", int64(procs))
+	// ---- backward, fresh processes whose FIRST calls come from 12 goroutines at once
+	cprocs := 0
+	for k := 0; k < 2*K; k++ {
+		out, err := exec.Command(exe, "C20", "--leg", "child-concurrent").Output()
+		if err != nil {
+			r.Inconclusive("child process (concurrent first use) %d failed: %v", k, err)
+			continue
+		}
+		var a c20Answers
+		if err := json.Unmarshal(out, &a); err != nil {
+			r.Inconclusive("child process (concurrent first use) %d: bad output: %v", k, err)
+			continue
+		}
+		all = append(all, a)
+		cprocs++
+		r.Eval(11 * 12 * 2)
+	}
+	r.Count("fresh_processes_with_concurrent_first_use", int64(cprocs))
 	for l := -2; l <= 8; l++ {
 		k := fmt.Sprint(l)
 		gs := map[int]bool{}
